@@ -312,6 +312,9 @@ func flatten(v Value, out []*Term) []*Term {
 		}
 		return out
 	}
+	if op, ok := v.(VOpaque); ok {
+		panic(execError{"cannot flatten opaque value of kind " + op.Kind})
+	}
 	panic(execError{fmt.Sprintf("cannot flatten %T", v)})
 }
 
